@@ -28,12 +28,16 @@ from mutants import M  # noqa: E402
 def apply_mutant(scratch, m):
     path = os.path.join(scratch, m["file"])
     s = open(path).read()
-    n = s.count(m["old"])
-    if n == 0:
-        raise RuntimeError(f"pattern not found in {m['file']}")
-    if m["count"] is not None and n != m["count"]:
-        raise RuntimeError(f"pattern occurs {n} times in {m['file']}, expected {m['count']}")
-    open(path, "w").write(s.replace(m["old"], m["new"]))
+    olds = m["old"] if isinstance(m["old"], list) else [m["old"]]
+    news = m["new"] if isinstance(m["new"], list) else [m["new"]]
+    for old, new in zip(olds, news):
+        n = s.count(old)
+        if n == 0:
+            raise RuntimeError(f"pattern not found in {m['file']}: {old[:60]!r}")
+        if m["count"] is not None and n != m["count"]:
+            raise RuntimeError(f"pattern occurs {n} times in {m['file']}, expected {m['count']}")
+        s = s.replace(old, new)
+    open(path, "w").write(s)
 
 
 def main():
